@@ -35,7 +35,7 @@ FORMULA_SRC = {"F1": "center(a) + A", "F2": "a:A + scale(b)", "F3": "y ~ a | A",
                "F7": "center(`a b`) + scale(`a b`) + center(`a+b`)",
                # objects owned by the caller and handed over through the context: a contrasts instance (re-used for factors whose levels put its
                # base at different positions) and a float array (transforms must not work on it in place)
-               "F8": "C(G, tr) + a", "F9": "lag(z4) + a",
+               "F8": "C(G, tr) + a", "F9": "lag(z4) + scale(z4, center=False) + a",
                # a helper from the caller's context that itself builds a model matrix (of other data) while the outer build is under way
                "F10": "a + nested(b) + A"}
 
